@@ -49,6 +49,12 @@ NRB_CASES = [("lt16", "nrbytes < 16"), ("gt64", "nrbytes > 64")] + \
             [("eq%d" % k, "nrbytes == %d" % k) for k in range(16, 65)]
 
 
+NRB_QUICK = ["lt16", "eq16", "eq17", "eq18", "eq32", "eq63", "eq64"]
+NRB_QUICK_NOTE = ("quick tier discharges the cases nrbytes < 16 and nrbytes in {16, 17, 18, 32, 63, 64} "
+                  "(all three residues mod 3 and both ends); the thorough tier discharges the exhaustive "
+                  "partition nrbytes < 16, 16..64, > 64")
+
+
 def _misc(name, fn, defs, src, extra=None, functions=None):
     j = {"name": "gensalt_%s" % name, "props": ["C10", "C11", "C12", "C13"],
          "functions": functions or [fn],
@@ -83,15 +89,15 @@ JOBS += [
           functions=["gensalt_sha1crypt_rn", "to64"], extra={"unwind": 18}),
     _misc("scrypt", "gensalt_scrypt_rn", ["M_scrypt=1", "OSZ_MAX=256", "XV_STRCPY_MAX=256", "STUB_STRCPY_OR_ABORT=1", "XV_STR_SCAN=193"], ["lib/crypt-scrypt.c", ],
           functions=["gensalt_scrypt_rn", "encode64", "encode64_uint32", "N2log2", "strcpy_or_abort"],
-          extra={"unwind": 24, "bounds": {"STR": 193, "STRCPY": 256, "SPAN": 512}, "cases": NRB_CASES, "timeout": 500, "mem_gb": 2, "bound": "output_size <= 256 (larger sizes differ only in strcpy_or_abort's zero fill, which has its own contract)"}),
+          extra={"unwind": 24, "bounds": {"STR": 193, "STRCPY": 256, "SPAN": 512}, "cases": NRB_CASES, "cases_quick": NRB_QUICK, "cases_quick_note": NRB_QUICK_NOTE, "timeout": 500, "mem_gb": 2, "bound": "output_size <= 256 (larger sizes differ only in strcpy_or_abort's zero fill, which has its own contract)"}),
     _misc("yescrypt", "gensalt_yescrypt_rn", ["M_yescrypt=1", "OSZ_MAX=256", "XV_STRCPY_MAX=256", "STUB_STRCPY_OR_ABORT=1", "XV_STR_SCAN=193"],
           ["lib/crypt-yescrypt.c", "lib/alg-yescrypt-common.c"],
           functions=["gensalt_yescrypt_rn", "yescrypt_encode_params_r", "encode64", "encode64_uint32",
                      "encode64_uint32_fixed", "N2log2", "strcpy_or_abort"],
-          extra={"unwind": 24, "bounds": {"STR": 193, "STRCPY": 256, "SPAN": 512}, "cases": NRB_CASES, "timeout": 500, "mem_gb": 2, "bound": "output_size <= 256 (larger sizes differ only in strcpy_or_abort's zero fill, which has its own contract)"}),
+          extra={"unwind": 24, "bounds": {"STR": 193, "STRCPY": 256, "SPAN": 512}, "cases": NRB_CASES, "cases_quick": NRB_QUICK, "cases_quick_note": NRB_QUICK_NOTE, "timeout": 500, "mem_gb": 2, "bound": "output_size <= 256 (larger sizes differ only in strcpy_or_abort's zero fill, which has its own contract)"}),
     _misc("gost_yescrypt", "gensalt_gost_yescrypt_rn", ["M_gost_yescrypt=1", "OSZ_MAX=256", "XV_STRCPY_MAX=256", "STUB_STRCPY_OR_ABORT=1", "XV_STR_SCAN=193"],
           ["lib/crypt-gost-yescrypt.c", "lib/crypt-yescrypt.c", "lib/alg-yescrypt-common.c"],
           functions=["gensalt_gost_yescrypt_rn", "gensalt_yescrypt_rn", "yescrypt_encode_params_r", "encode64",
                      "encode64_uint32", "encode64_uint32_fixed", "N2log2", "strcpy_or_abort"],
-          extra={"unwind": 24, "bounds": {"STR": 193, "STRCPY": 256, "SPAN": 512}, "cases": NRB_CASES, "timeout": 500, "mem_gb": 2, "bound": "output_size <= 256 (larger sizes differ only in strcpy_or_abort's zero fill, which has its own contract)"}),
+          extra={"unwind": 24, "bounds": {"STR": 193, "STRCPY": 256, "SPAN": 512}, "cases": NRB_CASES, "cases_quick": NRB_QUICK, "cases_quick_note": NRB_QUICK_NOTE, "timeout": 500, "mem_gb": 2, "bound": "output_size <= 256 (larger sizes differ only in strcpy_or_abort's zero fill, which has its own contract)"}),
 ]
